@@ -94,6 +94,20 @@ class Prop(G.InputPropBase):
                 data = b"".join(G.item_bytes(i) for i in items)
                 runs = ["@bh.%d,%s" % (bits, G.hx(data)) for bits in (0, 3)] + [G.chunkings(rng, data, "bytes"), "@rw.3," + G.chunkings(rng, data, "random")]
                 cs.append(Case("I " + " / ".join(runs), sweep="runs-of-one-kind", cfgs=["C06"], tag="runs-of-one-kind"))
+        # ONE control sequence with hundreds of parameter bytes, whole and cut late (after byte 200, 255 … 262, 300, 511 … 514)
+        # and byte by byte: a length limit that is only looked at between deliveries
+        for nparam in (255, 256, 257, 258, 300, 520, 1100):
+            for intro in (b"\x1b[", b"\x9b", b"\x1b[?"):
+                body = (b"1234567890;" * (nparam // 11 + 1))[:nparam]
+                data = intro + body + b"m" + b"\x1b[Ax"
+                runs = [G.hx(data)]
+                for cut in (200, 255, 256, 257, 258, 259, 260, 261, 262, 300, 511, 512, 513, 514, len(data) - 5):
+                    if 0 < cut < len(data):
+                        runs.append(G.hx(data[:cut]) + "," + G.hx(data[cut:]))
+                if nparam <= 300:
+                    runs.append(G.chunkings(rng, data, "bytes"))
+                runs.append(G.hx(data))
+                cs.append(Case("I " + " / ".join(runs), sweep="long-sequence-cut-late", cfgs=["C06"], tag="long-sequence"))
         # wall-clock time passing between two deliveries that cut an item (a slow link, a user who pauses after ESC): the
         # decoder has no notion of time
         k = 0
